@@ -219,6 +219,12 @@ let run_adf id (lines : string list) =
           match q with
           | ["depths"] -> emit id qid ("depths " ^ String.concat "," (List.map (fun t -> sn (max_depth c a.st t)) a.ac))
           | ["audit"] -> emit id qid ("audit " ^ audit_string a.c a.st)
+          | ["paths"] ->
+            let hs = N0 :: n_of_int 1 :: a.ac in
+            emit id qid ("paths " ^ String.concat " " (List.map (fun t ->
+              let (_, (x1, y1)) = paths c a.st t true in
+              let (_, (x2, y2)) = paths c a.st t false in
+              sn t ^ ":" ^ sn x1 ^ "/" ^ sn y1 ^ ":" ^ sn x2 ^ "/" ^ sn y2) hs))
           | ["ops"; prog] ->
             let regs = ref (Array.of_list a.ac) in
             let res = ref [] in
